@@ -36,6 +36,10 @@ def gen_program(rng, clock=None, n_events=None, p_cancel=0.12, p_bad=0.0,
             start = float(start)
             length = float(length)
             warm = float(rng.choice([warm, warm, 0.5, 1.5]))
+        elif rng.random() < 0.2:
+            # int clocks far beyond 2**53 (e.g. nanosecond time stamps): exact
+            # in int arithmetic, not representable as floats
+            start = rng.choice([2 ** 53, 2 ** 53 + 1, 10 ** 18 + 7, 2 ** 63 + 3])
         rep = [start, warm, length]
     start, warm, length = rep
     end = start + length
